@@ -187,6 +187,8 @@ def main(tier: str) -> int:
 
     # ---- MLP builder: all hidden tuples up to 3 layers x up to 4 units (incl. none)
     tuples = [()] + [t for n in (1, 2, 3) for t in itertools.product(range(1, 5 if tier == "thorough" else 4), repeat=n)]
+    # "all hidden_layers tuples": entries of 0 (the classifiers' default is (0,)) are layers without nodes - the others are wired in order
+    tuples += [(0,), (0, 3), (3, 0), (3, 0, 2), (0, 0, 2), (2, 0, 0), (0, 2, 0, 1)]
     for hl in tuples:
         for off in (True, False):
             # the output activation follows the KIND of estimator, whatever the number of outputs (1 class, several targets)
@@ -202,7 +204,8 @@ def main(tier: str) -> int:
                 layers = [list(range(nin))]
                 e = nin
                 for s_ in hl:
-                    layers.append(list(range(e, e + s_)))
+                    if s_ > 0:
+                        layers.append(list(range(e, e + s_)))
                     e += s_
                 layers.append(list(range(e, e + nout)))
                 exp = {(a, b) for l1, l2 in zip(layers, layers[1:]) for a in l1 for b in l2}
@@ -211,8 +214,8 @@ def main(tier: str) -> int:
                 if conns != exp:
                     chk.fail("the MLP builder does not yield the requested layered architecture",
                              {**d, "missing": sorted(exp - conns)[:6], "extra": sorted(conns - exp)[:6]}, {"fn": "mlp_builder", "no_hidden_offset": (hl == () and off)})
-                acts_out = {int(net._activs[o]) for o in layers[-1]}
-                acts_hid = {int(net._activs[h]) for l in layers[1:-1] for h in l}
+                acts_out = {int(net._activs.get(o, -1)) for o in layers[-1]}        # -1: the node does not exist in the net
+                acts_hid = {int(net._activs.get(h, -1)) for l in layers[1:-1] for h in l}
                 if acts_out != {oact} or (acts_hid and acts_hid != {3}):
                     chk.fail("the MLP builder assigns the wrong activations (softmax outputs for classifiers, linear for regressors)", {**d, "out": sorted(acts_out), "hidden": sorted(acts_hid)},
                              {"fn": "mlp_builder", "clause": "activations"})
@@ -238,6 +241,33 @@ def main(tier: str) -> int:
                          {"weights_optimizer": wo.__name__, "seed": chk.seed * 10 + seed, "shape": list(w.shape), "min": float(np.min(w)), "max": float(np.max(w))},
                          {"fn": "train_net_weights", "optimizer": wo.__name__})
 
+    # the GP network ESTIMATORS, "all offset settings": every net decoded during a fit (recorded history of the structure
+    # optimizer) and the fitted net are valid nets over the columns of the training matrix
+    import estim as E0_
+    from thefittest.regressors import GeneticProgrammingNeuralNetRegressor as _GPNNR
+    from thefittest.classifiers import GeneticProgrammingNeuralNetClassifier as _GPNNC
+    E0_.install_validate_data()
+    Xg0, yg0 = E0_.data_regression(n=10, d=3, seed=chk.seed + 4)
+    Xg1, yg1 = E0_.data_classification(n=12, d=3, labels=("a", "b", "c"), seed=chk.seed + 4)
+    for cls0, (Xd0, yd0) in ((_GPNNR, (Xg0, yg0)), (_GPNNC, (Xg1, yg1))):
+        for off0 in (True, False):
+            try:
+                est0 = cls0(n_iter=3, pop_size=8, offset=off0, input_block_size=1, optimizer_args={"keep_history": True, "selections": ("rank", "tournament_3")},
+                            weights_optimizer_args={"iters": 2, "pop_size": 4}, random_state=chk.seed + 9)
+                est0.fit(Xd0, yd0)
+            except Exception as e:  # noqa
+                chk.fail("fitting a GP network estimator raises", {"estimator": cls0.__name__, "offset": off0, "error": repr(e)[:200]}, {"fn": "gpnn_fit", "clause": "raises"})
+                continue
+            ncols = Xd0.shape[1] + (1 if off0 else 0)
+            nets0 = [est0.get_net()] + [n_ for gen in est0.optimizer_stats_.get("population_ph", []) for n_ in gen]
+            chk.count("gpnn_estimator_nets", len(nets0))
+            chk.case(("gpnn_estimator", cls0.__name__, off0))
+            for n_ in nets0:
+                bad0 = validity_oracle(n_, ncols)
+                if bad0 or any(int(i) >= ncols for i in n_._inputs):
+                    chk.fail("a decoded net violates a validity clause: " + ", ".join(bad0 or ["inputs are columns of X"]),
+                             {"estimator": cls0.__name__, "offset": off0, "columns_of_the_training_matrix": ncols, "net": NL.net_json(n_)}, {"fn": "gpnn_fit", "clause": (bad0 or ["inputs"])[0]})
+                    break
     # the SAME estimator instance re-fitted after set_params: the fitted net is the architecture requested NOW
     import estim as E_
     E_.install_validate_data()
